@@ -140,6 +140,17 @@ def run_driver(harness, name, tier, seed, outdir, shards=1, per=60000, timeout=3
             p.kill()
             raise HarnessError('driver %s timed out' % name)
         if p.returncode != 0:
+            i = procs.index(p)
+            intent = os.path.join(outdir, '%s-s%02d.intent.json' % (name, i))
+            if os.path.exists(intent) and not err.startswith('HARNESS-ERROR'):
+                # the runtime aborted the process inside a library call whose request was left behind
+                req = json.load(open(intent))
+                os.remove(intent)
+                first = [l for l in err.split('\n') if l.startswith(('fatal error', 'runtime:', 'panic:', 'signal'))][:2]
+                sums.append({'crash': True, 'req': req, 'how': '; '.join(first) or 'exit status %d' % p.returncode,
+                             'driver': name, 'shard': i, 'events': 0, 'chunks': 0, 'ops': {}})
+                log('[drive] %s shard %d: the process died inside a call (%s)' % (name, i, sums[-1]['how']))
+                continue
             raise HarnessError('driver %s failed rc=%d:\n%s' % (name, p.returncode, tail(out + err)))
         for line in out.split('\n'):
             if line.startswith('DRIVER-SUMMARY '):
@@ -148,6 +159,40 @@ def run_driver(harness, name, tier, seed, outdir, shards=1, per=60000, timeout=3
     log('[drive] %-10s %9d events in %d chunks, %d shards, %.1fs'
         % (name, tot, sum(s['chunks'] for s in sums), shards, time.time() - t0))
     return sums
+
+
+def run_conc(harness, name, tier, seed, outdir, goroutines=8, limit=20000, per=60000, timeout=1800, env=None):
+    """Runs `harness conc <name>`: the driver's shards run as goroutines of ONE process (default
+    configuration), each recording its own trace."""
+    os.makedirs(outdir, exist_ok=True)
+    t0 = time.time()
+    cmd = [harness, 'conc', name, '-tier', tier, '-seed', str(seed), '-out', outdir, '-goroutines', str(goroutines),
+           '-limit', str(limit), '-per', str(per)]
+    p = subprocess.run(cmd, capture_output=True, text=True, env=env, timeout=timeout)
+    if p.returncode != 0:
+        raise HarnessError('concurrent driver %s failed rc=%d:\n%s' % (name, p.returncode, tail(p.stdout + p.stderr)))
+    sums = [json.loads(l[len('DRIVER-SUMMARY '):]) for l in p.stdout.split('\n') if l.startswith('DRIVER-SUMMARY ')]
+    log('[conc]  %-10s %9d events from %d goroutines of one process, %.1fs'
+        % (name, sum(s['events'] for s in sums), goroutines, time.time() - t0))
+    return sums
+
+
+def reobserve_conc(harness, spec, tier, seed, scratch, code, module='Trace', attempts=3):
+    """A failed demand seen only when calls run concurrently cannot be re-executed call by call: the
+    concurrent run is repeated in fresh processes until the same demand fails again."""
+    for k in range(attempts):
+        d = tempfile.mkdtemp(prefix='conc-again-', dir=scratch)
+        run_conc(harness, spec['name'], tier, seed + k, d, goroutines=spec.get('goroutines', 8),
+                 limit=spec.get('limit', 20000), per=spec.get('per', 60000))
+        files = sorted(glob.glob(os.path.join(d, '*.ndjson')))
+        for r in validate_all(files, scratch, module=module):
+            for (idx, c) in r['bads']:
+                if c == code:
+                    ev = read_event(r['path'], idx)
+                    shutil.rmtree(d, ignore_errors=True)
+                    return ev, k + 1
+        shutil.rmtree(d, ignore_errors=True)
+    return None, attempts
 
 
 def count_lines(path):
@@ -267,6 +312,17 @@ def replay_events(harness, events, scratch, module='Trace', any_event=False):
     return new, codes
 
 
+def replay_crash(harness, events, scratch):
+    """Re-executes events in a fresh process; True if that process dies abnormally again."""
+    src = os.path.join(scratch, 'crash-%s.json' % hashlib.sha1(json.dumps(events, sort_keys=True).encode()).hexdigest()[:12])
+    json.dump({'events': events}, open(src, 'w'))
+    p = subprocess.run([harness, 'replay', src, src + '.out'], capture_output=True, text=True, timeout=1800)
+    if p.returncode == 0 or p.stderr.startswith('HARNESS-ERROR'):
+        return False, ''
+    first = [l for l in p.stderr.split('\n') if l.startswith(('fatal error', 'runtime:', 'panic:', 'signal'))][:2]
+    return True, '; '.join(first) or 'exit status %d' % p.returncode
+
+
 def load_known():
     p = os.path.join(VERIF, 'known_findings.json')
     if not os.path.exists(p):
@@ -290,12 +346,15 @@ def matches_known(prop, code, event, known):
     return None
 
 
-def write_replay_file(prop, code, events, expected_note):
+def write_replay_file(prop, code, events, expected_note, concurrent=None):
     d = os.path.join(EVID, 'replays')
     os.makedirs(d, exist_ok=True)
     rid = hashlib.sha1((prop + code + json.dumps(events, sort_keys=True)).encode()).hexdigest()[:12]
     path = os.path.join(d, '%s-%s.json' % (prop, rid))
-    json.dump({'property': prop, 'demand': code, 'note': expected_note, 'events': events}, open(path, 'w'), indent=1)
+    doc = {'property': prop, 'demand': code, 'note': expected_note, 'events': events}
+    if concurrent:
+        doc['concurrent'] = concurrent
+    json.dump(doc, open(path, 'w'), indent=1)
     return path
 
 
